@@ -226,7 +226,9 @@ func (i *Int) EuclideanDivVarTime(remainder *Nat, numerator, denominator *Int) (
 		qOut.Set(&qan)
 	}
 	i.Set(&qOut)
-	i.Resize(min(numerator.AnnouncedLen(), numerator.AnnouncedLen()-denominator.TrueLen()+2))
+	// |quotient| <= |numerator|/|denominator| + 1: at least one bit, also when the numerator is
+	// announced shorter than the denominator (the Euclidean quotient of -1 by 5 is -1).
+	i.Resize(max(min(numerator.AnnouncedLen(), numerator.AnnouncedLen()-denominator.TrueLen()+2), 1))
 
 	if remainder != nil {
 		var rOut Int
@@ -304,7 +306,7 @@ func (i *Int) DivVarTime(remainder, numerator, denominator *Int) (ok ct.Bool) {
 	var qInt saferith.Int
 	qInt.SetNat(&q)
 	qInt.Neg(qs)
-	qInt.Resize(min(numerator.AnnouncedLen(), numerator.AnnouncedLen()-denominator.TrueLen()+2))
+	qInt.Resize(min(numerator.AnnouncedLen(), max(numerator.AnnouncedLen()-denominator.TrueLen()+2, 0)))
 	i.Set((*Int)(&qInt))
 
 	if remainder != nil {
